@@ -9,6 +9,7 @@ import (
 	"strings"
 	"time"
 
+	"github.com/pentops/j5/gen/j5/ext/v1/ext_j5pb"
 	"github.com/shopspring/decimal"
 	"google.golang.org/protobuf/proto"
 	"google.golang.org/protobuf/reflect/protoreflect"
@@ -126,7 +127,35 @@ func equalModulo(a, b protoreflect.Message, path string) string {
 		if ta != tb {
 			return fmt.Sprintf("%s: any type %q vs %q", path, ta, tb)
 		}
-		return equalModulo(pa, pb, path+".(payload)")
+		if d := equalModulo(pa, pb, path+".(payload)"); d != "" {
+			return d
+		}
+		// a j5 Any keeps the JSON text of its payload: the encoder embeds the stored j5_json verbatim
+		// (or the inner encoding when only proto bytes are stored) and the decoder keeps json.Compact
+		// of what it read, so the decoded j5_json is that text byte for byte, insignificant white
+		// space aside (member order, escapes and number spellings survive)
+		if a.Descriptor().FullName() == "j5.types.any.v1.Any" {
+			fs := a.Descriptor().Fields()
+			var embedded []byte
+			if a.Has(fs.ByName("j5_json")) {
+				embedded = a.Get(fs.ByName("j5_json")).Bytes()
+			} else {
+				o := encodeMsg(theCodec, pa)
+				if o.Kind != "ok" {
+					return fmt.Sprintf("%s: any payload does not encode: %s%s", path, o.Err, o.Panic)
+				}
+				embedded = o.Out
+			}
+			var want bytes.Buffer
+			if err := json.Compact(&want, embedded); err != nil {
+				return fmt.Sprintf("%s: any j5_json of the original is not JSON: %v", path, err)
+			}
+			got := b.Get(fs.ByName("j5_json")).Bytes()
+			if !bytes.Equal(want.Bytes(), got) {
+				return fmt.Sprintf("%s: any j5_json text %q vs %q", path, want.String(), string(got))
+			}
+		}
+		return ""
 	}
 	var diff string
 	fields := a.Descriptor().Fields()
@@ -188,6 +217,20 @@ func equalSingle(fd protoreflect.FieldDescriptor, a, b protoreflect.Value, path 
 }
 
 // representable reports why a message lies outside C01's domain ("" when inside).
+// enumOptionDefined: the number is a declared value and, for an enum annotated no_default (no
+// UNSPECIFIED option in the J5 schema), not the zero value.
+func enumOptionDefined(ed protoreflect.EnumDescriptor, n protoreflect.EnumNumber) bool {
+	if ed.Values().ByNumber(n) == nil {
+		return false
+	}
+	if n == 0 {
+		if o, ok := proto.GetExtension(ed.Options(), ext_j5pb.E_Enum).(*ext_j5pb.EnumOptions); ok && o != nil && o.NoDefault {
+			return false
+		}
+	}
+	return true
+}
+
 func notRepresentable(m protoreflect.Message) string {
 	w := map[string]int{}
 	scanWide(m, w)
@@ -223,6 +266,9 @@ func notRepresentable(m protoreflect.Message) string {
 				if fd.Kind() == protoreflect.MessageKind {
 					walk(v.Message())
 				}
+				if fd.Kind() == protoreflect.EnumKind && !enumOptionDefined(fd.Enum(), v.Enum()) {
+					why = "enum number without a J5 option"
+				}
 			}
 			switch {
 			case fd.IsList():
@@ -248,6 +294,72 @@ func safeDecimalParse(s string) (d decimal.Decimal, err error) {
 		}
 	}()
 	return decimal.NewFromString(s)
+}
+
+// anyBackTerm: what the decoder's WithProtoToAny conversion answers for every Any of the message:
+// (type name, payload JSON in the model's canonical print, proto bytes | None).
+func anyBackTerm(m protoreflect.Message) string {
+	var parts []string
+	var walk func(m protoreflect.Message)
+	walk = func(m protoreflect.Message) {
+		name := m.Descriptor().FullName()
+		if name == "google.protobuf.Any" || name == "j5.types.any.v1.Any" {
+			fs := m.Descriptor().Fields()
+			var tn string
+			var embedded []byte
+			if name == "google.protobuf.Any" {
+				tn = strings.TrimPrefix(m.Get(fs.ByName("type_url")).String(), "type.googleapis.com/")
+			} else {
+				tn = m.Get(fs.ByName("type_name")).String()
+				if m.Has(fs.ByName("j5_json")) {
+					embedded = m.Get(fs.ByName("j5_json")).Bytes()
+				}
+			}
+			if embedded == nil {
+				if _, payload, err := anyPayloadMsg(m); err == nil {
+					if o := encodeMsg(theCodec, payload); o.Kind == "ok" {
+						embedded = o.Out
+					}
+				}
+			}
+			if embedded == nil {
+				return
+			}
+			out := "None"
+			if mt, err := resolver.FindMessageByName(protoreflect.FullName(tn)); err == nil {
+				dst := mt.New()
+				if e, p := decodeMsg(anyCodec, embedded, dst); e == nil && p == nil {
+					if b, err := proto.Marshal(dst.Interface()); err == nil {
+						out = "(Some " + codecgen.BytesTerm(string(b)) + ")"
+					}
+				}
+			}
+			parts = append(parts, fmt.Sprintf("(%s, %s, %s)", codecgen.BytesTerm(tn), codecgen.BytesTerm(string(canonPrint(embedded))), out))
+			return
+		}
+		m.Range(func(fd protoreflect.FieldDescriptor, v protoreflect.Value) bool {
+			if fd.IsMap() {
+				if fd.MapValue().Kind() != protoreflect.MessageKind {
+					return true
+				}
+			} else if fd.Kind() != protoreflect.MessageKind {
+				return true
+			}
+			switch {
+			case fd.IsList():
+				for i := 0; i < v.List().Len(); i++ {
+					walk(v.List().Get(i).Message())
+				}
+			case fd.IsMap():
+				v.Map().Range(func(_ protoreflect.MapKey, mv protoreflect.Value) bool { walk(mv.Message()); return true })
+			default:
+				walk(v.Message())
+			}
+			return true
+		})
+	}
+	walk(m)
+	return "[" + strings.Join(parts, "; ") + "]"
 }
 
 func hasPBAny(m protoreflect.Message) bool {
@@ -324,11 +436,16 @@ func (er *encRun) roundTrip(stream string, t *target, m protoreflect.Message, fl
 		res.Fail(vh.Failure{Case: caseNo, Stream: stream, Sig: "C01 encoding a representable message fails", Clause: "encoding a representable message succeeds", Input: in, Got: o.Err})
 		return
 	}
-	// model case: default codec both ways
+	// model case: the default codec both ways; a message holding a google.protobuf.Any is decoded with
+	// WithProtoToAny on both sides (the model gets the table of the payload conversions)
 	{
 		facts := factsOf(m)
 		mb := t.New()
-		derr, dpan := decodeMsg(theCodec, o.Out, mb)
+		mc, abackTerm := theCodec, "None"
+		if hasPBAny(m) {
+			mc, abackTerm = anyCodec, "(Some "+anyBackTerm(m)+")"
+		}
+		derr, dpan := decodeMsg(mc, o.Out, mb)
 		backTerm := "None"
 		if dpan == nil && derr == nil {
 			backTerm = "(Some " + msgTermCanon(mb) + ")"
@@ -337,9 +454,13 @@ func (er *encRun) roundTrip(stream string, t *target, m protoreflect.Message, fl
 			res.Count("model_skipped_large_document") // a list literal of that length overflows coqc's stack; the oracle still runs
 		} else if dpan == nil {
 			pf, pt := literalTables(o.Out)
-			er.em.cf.Terms = append(er.em.cf.Terms, fmt.Sprintf("CRound %s %s %s %s %s %s %s %s %s %s %s", t.Name, codecgen.BytesTerm(t.Env.Root), msgTerm(m),
+			if !inTheoremShape(t.Env) {
+				res.Count("env_outside_theorem_hypotheses_exposed_oneof_in_flattened_object")
+			}
+			er.em.cf.Terms = append(er.em.cf.Terms, fmt.Sprintf("CRound %s %s %s %s %s %s %s %s %s %s %s %s %s", t.Name, vh.BoolTerm(inTheoremShape(t.Env)), codecgen.BytesTerm(t.Env.Root), msgTerm(m),
 				facts.floatsTerm(), facts.innersTerm(), pf, pt, vh.BoolTerm(facts.maxMap <= 1), codecgen.BytesTerm(string(o.Out)), backTerm,
-				vh.BoolTerm(facts.kinds["any"] == 0))) // messages are compared with dec's model unless an Any is inside (its j5_json is stored in another canonical spelling)
+				vh.BoolTerm(facts.kinds["any"] == 0), // messages are compared with dec's model unless an Any is inside (its j5_json is stored in another canonical spelling)
+				abackTerm))
 			res.Cases = append(res.Cases, vh.CaseRec{Case: caseNo, Stream: stream, Input: in, Impl: map[string]any{"out": short(o.Out), "decode_err": fmt.Sprint(derr)}})
 		}
 	}
@@ -388,7 +509,7 @@ const maxModelOut = 2600
 func runC01(cfg *vh.Config) error {
 	res := vh.NewResult("C01", cfg.Seed)
 	res.Rule = "representable messages (valid UTF-8, finite floats, defined enum numbers, years 0001-9999 with real calendar days, timestamps 0001-9999 with nanos in range, well-formed decimals, Any with known types) of test.schema.v1.FullSchema and related roots and of generated dynamic descriptors; integer boundaries, escapes / controls / non-BMP text, every oneof arm, maps, arrays, nesting depth 1-5, optional-with-zero; encoded with the real codec, decoded into a fresh message, compared with the two allowances (decimals numerically, empty flattened sub-object = absent; Any by type and payload). Library streams: ParseInt, byteValueFromString, time.Parse, DateFromString, the float round-trip law of strconv. non-trivial = distinct (type, message) other than the empty message"
-	targets, err := loadTargets()
+	targets, nFixed, err := loadTargets(cfg, res)
 	if err != nil {
 		return err
 	}
@@ -422,19 +543,29 @@ func runC01(cfg *vh.Config) error {
 		g.fill(m, 1)
 		er.roundTrip("big", t, m, flats[t])
 	}
-	for i := 0; i < cfg.Scale(600, 20000); i++ {
+	for i := 0; i < cfg.Scale(450, 12000); i++ {
 		t := pick()
 		g := &msgGen{r: r, maxDepth: 2, fieldPct: vh.Pick(r, []int{3, 6}), maxEntries: 2, emptySubs: 30}
 		m := t.New()
 		g.fill(m, 1)
 		er.roundTrip("sparse", t, m, flats[t])
 	}
-	for i := 0; i < cfg.Scale(800, 30000); i++ {
+	for i := 0; i < cfg.Scale(600, 16000); i++ {
 		t := pick()
 		g := &msgGen{r: r, maxDepth: r.Range(1, 5), fieldPct: vh.Pick(r, []int{10, 20, 35, 60}), maxEntries: r.Range(1, 3), emptySubs: vh.Pick(r, []int{0, 10, 30})}
 		m := t.New()
 		g.fill(m, 1)
 		er.roundTrip("message", t, m, flats[t])
+	}
+	// messages of the schemas generated for this run (compiled j5s packages, raw descriptors)
+	if gen := targets[nFixed:]; len(gen) > 0 {
+		for i := 0; i < cfg.Scale(250, 6000); i++ {
+			t := vh.Pick(r, gen)
+			g := &msgGen{r: r, maxDepth: r.Range(1, 4), fieldPct: vh.Pick(r, []int{20, 40, 70}), maxEntries: r.Range(1, 3), emptySubs: vh.Pick(r, []int{0, 10, 30})}
+			m := t.New()
+			g.fill(m, 1)
+			er.roundTrip("generated-schema", t, m, flats[t])
+		}
 	}
 	libParsers(cfg, er)
 	res.Evaluations = em.caseNo
